@@ -13,5 +13,5 @@ Extraction "model.ml"
   parse_bmsg parse_stream enc_bmsg enc_stream wf_msg
   err_text get_code get_severity default_severity err_fields any_text flatten
   e_unimplemented oracle_C17 model_errorcode spec_fields
-  frames serve encode_value oracle_turns oracle_C05 oracle_C01 oracle_C12 turn_verdict
+  frames serve encode_value oracle_names names_verdict oracle_C13 oracle_C19 oracle_turns oracle_C05 oracle_C01 oracle_C12 turn_verdict
   run_case log_digest log_match strip_consume.
